@@ -156,6 +156,8 @@ class FakeServiceInfo:
             delay = ans["delay"]
         if ans in ("none", "hang"):
             delay = timeout / 1000.0 if ans == "none" else None
+        if isinstance(ans, dict) and ans.get("incomplete"):
+            delay = timeout / 1000.0
         fut = sim.loop.create_future()
         if delay is not None:
             sim.net.at(sim.clock + delay, lambda: fut.done() or fut.set_result(None))
@@ -168,6 +170,13 @@ class FakeServiceInfo:
         rec["t_end"] = sim.clock
         if ans == "none":
             rec["outcome"] = "none"
+            return False
+        if isinstance(ans, dict) and ans.get("incomplete"):
+            # python-zeroconf reports a request complete only once SRV/TXT have been seen too; with `server=` given, the A/AAAA records
+            # it did receive are loaded into the ServiceInfo although async_request() returns False
+            rec["outcome"] = "incomplete-with-addresses"
+            self._v4 = [ipaddress.ip_address(x) for x in ans.get("v4", [])]
+            self._v6 = [ipaddress.ip_address(x) for x in ans.get("v6", [])]
             return False
         if isinstance(ans, BaseException):
             rec["outcome"] = "raise"
